@@ -81,11 +81,12 @@ def default_stubs():
     }
 
 class Emit:
-    def __init__(s, m, roots, nthreads=1, coro=False, shift_check=False, spin=None, nsw_check=False, guard_style=True, atomic_rx=None, abort_rx=None):
+    def __init__(s, m, roots, nthreads=1, coro=False, shift_check=False, spin=None, nsw_check=False, guard_style=True, atomic_rx=None, abort_rx=None, fine_rx=None):
         s.m = m; s.names = {}; s.used = set(); s.lit = collections.OrderedDict()
         s.roots = roots; s.stubs = default_stubs(); s.externs = set(); s.asm_seen = set()
         s.yielders = set(); s.nthreads = nthreads; s.tid = None; s.coro = coro
         s.shift_check = shift_check; s.nsw_check = nsw_check; s.guard_style = guard_style
+        s.fine_rx = fine_rx          # functions in which EVERY load/store of non-local memory is a context-switch point (data races become visible)
         s.abort_rx = abort_rx        # calls to functions matching it are not expanded: reaching one is reported as a failure (path ends)
         s.atomic_rx = atomic_rx      # calls to yield-capable functions matching it run without preemption (one context-switch point before the call)
         s.spin = spin or []          # list of (compiled regex, U)
@@ -314,7 +315,7 @@ class Emit:
     def is_yield_inst(s, I):
         op = I['op']
         if op in ('cmpxchg', 'atomicrmw', 'fence'): return True
-        if op in ('load', 'store') and I['atomic']: return True
+        if op in ('load', 'store') and (I['atomic'] or s.fine_access(I)): return True
         if op in ('call', 'invoke'):
             c = I['callee']
             if c[0] == 'glob':
@@ -324,6 +325,13 @@ class Emit:
             elif c[0] != 'asm':
                 if I.get('_ycands'): return True
         return False
+
+    def fine_access(s, I):
+        """plain load/store that is a context-switch point because the current function is in fine-grained mode (not for allocas)"""
+        if not getattr(s, 'fine_cur', False): return False
+        p = I['ptr'][1]
+        if p[0] == 'reg' and p[1] in getattr(s, 'cur_allocas', ()): return False
+        return True
 
     def back_edges(s, f):
         blocks = list(f.blocks)
@@ -424,6 +432,8 @@ class Emit:
     # ---------------- function body
     def emit_fn(s, f, tid=None):
         s.tid = tid; coro = tid is not None; s.ny = 0; resume = []; s.cur_f = f
+        s.fine_cur = bool(coro and s.fine_rx is not None and s.fine_rx.search(f.name[1:].strip('"')))
+        s.cur_allocas = set(I['res'] for insts in f.blocks.values() for I in insts if I['op'] == 'alloca')
         gs = coro and s.guard_style      # guarded-execution clones (MODE flag) vs goto-dispatch clones (jump to the resume label, return at a yield)
         s.gs = gs
         s.fnames = {}
@@ -673,7 +683,7 @@ class Emit:
                     setres(PtrTy(s.gep_result_ty(I['bty'], I['idx'])), s.gep(I['bty'], I['base'], I['idx']))
                 elif op == 'load':
                     pe = s.val(*I['ptr'])
-                    if I['atomic']: yld('atomic load')
+                    if I['atomic'] or s.fine_access(I): yld('atomic load' if I['atomic'] else 'plain load (fine-grained)')
                     if r in S:
                         declare(VOIDP, rn + '_p', r)
                         body.append('  %s_p = *(unsigned char **)%s;' % (rn, pe))
@@ -682,7 +692,7 @@ class Emit:
                         setres(I['ty'], '*%s' % pe)
                 elif op == 'store':
                     pe = s.val(*I['ptr']); ve = s.val(*I['val'])
-                    if I['atomic']: yld('atomic store')
+                    if I['atomic'] or s.fine_access(I): yld('atomic store' if I['atomic'] else 'plain store (fine-grained)')
                     if is_i64(I['val'][0]) and has_shadow(I['val'][1]):
                         body.append('  *(unsigned char **)%s = %s;' % (pe, shadow(*I['val'])))
                     else:
@@ -1012,6 +1022,7 @@ class Emit:
                 for I in insts:
                     op = I['op']
                     if op in ('cmpxchg', 'atomicrmw', 'fence') or (op in ('load', 'store') and I['atomic']): direct.add(n)
+                    if op in ('load', 'store') and s.coro and s.fine_rx is not None and s.fine_rx.search(n[1:].strip('"')): direct.add(n)
                     if op in ('call', 'invoke'):
                         c = I['callee']
                         if c[0] == 'glob':
@@ -1213,6 +1224,7 @@ def main():
     ap.add_argument('--coro-style', default='guard', choices=['guard', 'goto'])
     ap.add_argument('--atomic')
     ap.add_argument('--abort-fn')
+    ap.add_argument('--fine')
     ap.add_argument('--spin', action='append', default=[])
     ap.add_argument('--report')
     a = ap.parse_args()
@@ -1221,7 +1233,7 @@ def main():
     spin = []
     for sp in a.spin:
         rx, U = sp.rsplit('=', 1); spin.append((re.compile(rx), int(U)))
-    e = Emit(m, a.roots.split(','), nthreads=a.threads, coro=a.coro, shift_check=a.shift_check, spin=spin, guard_style=(a.coro_style == 'guard'), atomic_rx=(re.compile(a.atomic) if a.atomic else None), abort_rx=(re.compile(a.abort_fn) if a.abort_fn else None))
+    e = Emit(m, a.roots.split(','), nthreads=a.threads, coro=a.coro, shift_check=a.shift_check, spin=spin, guard_style=(a.coro_style == 'guard'), atomic_rx=(re.compile(a.atomic) if a.atomic else None), abort_rx=(re.compile(a.abort_fn) if a.abort_fn else None), fine_rx=(re.compile(a.fine) if a.fine else None))
     try:
         c = e.run()
     except (Unsupported, SyntaxError, KeyError, TypeError, ValueError) as ex:
